@@ -544,6 +544,10 @@ def aliveConn (w : World) : Nat :=
   let held := w.heap.filterMap fun e => e.2.connData
   (w.conns ++ held).eraseDups.length
 
+/-- is the application-level data container still referenced (by the service or by an allocation,
+each of which holds an `Rc` of it in `app_data[0]` and, through `app_state`, of the pool)? -/
+def aliveApp (w : World) : Nat := if w.svcAlive || !w.heap.isEmpty then 1 else 0
+
 /-! ## The fixed application the harness builds (harness/src/props/c11.rs `build_app`) -/
 
 def chars (s : String) : List Char := s.toList
